@@ -753,6 +753,37 @@ bool exec_one( std::map<uint64_t, World>& worlds, uint64_t& cur, const Tokens& t
                 put_b( out, 102, { r ? 1ull : 0ull }, b.data(), b.size() );
             }
         }
+        else if ( op == "savenoseek" || op == "saveeof" ) {
+            // a sink that takes every byte but refuses every seek (a pipe), or a stream that comes with only eofbit
+            // set: in both cases the stream stops taking data without a rejected write
+            struct noseek_buf : public std::stringbuf {
+                pos_type seekoff( off_type, std::ios_base::seekdir, std::ios_base::openmode ) override { return pos_type( off_type( -1 ) ); }
+                pos_type seekpos( pos_type, std::ios_base::openmode ) override { return pos_type( off_type( -1 ) ); }
+            };
+            bool        r;
+            std::string b;
+            if ( op == "savenoseek" ) {
+                noseek_buf   buf;
+                std::ostream os( &buf );
+                r = w.el->save( os );
+                b = buf.str();
+            }
+            else {
+                std::stringstream os;
+                os.peek();                     // sets eofbit | failbit on the empty stream ...
+                os.clear( std::ios::eofbit );  // ... keep eofbit only
+                r = w.el->save( os );
+                b = os.str();
+            }
+            put_n( out, 102, { r ? 1ull : 0ull } );
+            // a complete image may not be claimed: if save() said true the sink must hold a loadable file
+            if ( r ) {
+                std::istringstream is( b );
+                elfio              chk;
+                if ( !chk.load( is ) )
+                    fprintf( out, "fault save-true-incomplete: save() returned true but the sink does not hold a loadable file (%zu bytes)\n", b.size() );
+            }
+        }
         else if ( op == "savepath" ) {
             std::string target = t[1] == "full" ? "/dev/full" : "/nonexistent-directory/for/elfio/out.elf";
             char dtmpl[] = "/tmp/elfio_verif_dirXXXXXX";
